@@ -388,7 +388,7 @@ dgsitrf(superlu_options_t *options, SuperMatrix *A, int relax, int panel_size,
 	    /* Determine the union of the row structure of the snode */
 	    if ( (*info = ilu_dsnode_dfs(jcol, kcol, asub, xa_begin, xa_end,
 					 marker, Glu)) != 0 )
-		return;
+		goto out_of_space;
 
 	    nextu    = xusub[jcol];
 	    nextlu   = xlusup[jcol];
@@ -398,7 +398,7 @@ dgsitrf(superlu_options_t *options, SuperMatrix *A, int relax, int panel_size,
 	    nzlumax = Glu->nzlumax;
 	    while ( new_next > nzlumax ) {
 		if ((*info = dLUMemXpand(jcol, nextlu, LUSUP, &nzlumax, Glu)))
-		    return;
+		    goto out_of_space;
 	    }
 
 	    for (icol = jcol; icol <= kcol; icol++) {
@@ -473,12 +473,12 @@ dgsitrf(superlu_options_t *options, SuperMatrix *A, int relax, int panel_size,
 		if ((*info = ilu_dcolumn_dfs(m, jj, perm_r, &nseg,
 					     &panel_lsub[k], segrep, &repfnz[k],
 					     marker, parent, xplore, Glu)))
-		    return;
+		    goto out_of_space;
 
 		/* Numeric updates */
 		if ((*info = dcolumn_bmod(jj, (nseg - nseg1), &dense[k],
 					  tempv, &segrep[nseg1], &repfnz[k],
-					  jcol, Glu, stat)) != 0) return;
+					  jcol, Glu, stat)) != 0) goto out_of_space;
 
 		/* Make a fill-in position if the column is entirely zero */
 		if (xlsub[jj + 1] == xlsub[jj]) {
@@ -492,7 +492,7 @@ dgsitrf(superlu_options_t *options, SuperMatrix *A, int relax, int panel_size,
 		    nextl = xlsub[jj] + 1;
 		    if (nextl >= nzlmax) {
 			int error = dLUMemXpand(jj, nextl, LSUB, &nzlmax, Glu);
-			if (error) { *info = error; return; }
+			if (error) { *info = error; goto out_of_space; }
 			lsub = Glu->lsub;
 		    }
 		    {
@@ -500,7 +500,7 @@ dgsitrf(superlu_options_t *options, SuperMatrix *A, int relax, int panel_size,
 			while (xlusup[jj] + 1 > nzlumax) {
 			    int error = dLUMemXpand(jj, xlusup[jj], LUSUP,
 						     &nzlumax, Glu);
-			    if (error) { *info = error; return; }
+			    if (error) { *info = error; goto out_of_space; }
 			    lsub = Glu->lsub; /* moves with lusup in work[] */
 			}
 		    }
@@ -538,7 +538,7 @@ dgsitrf(superlu_options_t *options, SuperMatrix *A, int relax, int panel_size,
 					       milu, amax[jj - jcol] * tol_U,
 					       quota, &drop_sum, &nnzUj, Glu,
 					       dwork2)) != 0)
-		    return;
+		    goto out_of_space;
 
 		/* Reset the dropping threshold if required */
 		if (drop_rule & DROP_DYNAMIC) {
@@ -678,5 +678,33 @@ dgsitrf(superlu_options_t *options, SuperMatrix *A, int relax, int panel_size,
     SUPERLU_FREE (relax_fsupc);
     SUPERLU_FREE (amax);
     if ( dwork2 ) SUPERLU_FREE (dwork2);
+
+    return;
+
+ out_of_space:
+    /* Factor storage could not be obtained: release what this call allocated.
+       L and U have not been created. */
+    dLUWorkFree(iwork, dwork, Glu);
+    SUPERLU_FREE (xplore);
+    SUPERLU_FREE (marker_relax);
+    if ( iperm_r_allocated ) SUPERLU_FREE (iperm_r);
+    SUPERLU_FREE (iperm_c);
+    SUPERLU_FREE (relax_end);
+    SUPERLU_FREE (swap);
+    SUPERLU_FREE (iswap);
+    SUPERLU_FREE (relax_fsupc);
+    SUPERLU_FREE (amax);
+    if ( dwork2 ) SUPERLU_FREE (dwork2);
+    if ( Glu->MemModel == SYSTEM && fact != SamePattern_SameRowPerm ) {
+	SUPERLU_FREE (Glu->lusup);
+	SUPERLU_FREE (Glu->ucol);
+	SUPERLU_FREE (Glu->lsub);
+	SUPERLU_FREE (Glu->usub);
+	SUPERLU_FREE (Glu->xsup);
+	SUPERLU_FREE (Glu->supno);
+	SUPERLU_FREE (Glu->xlsub);
+	SUPERLU_FREE (Glu->xlusup);
+	SUPERLU_FREE (Glu->xusub);
+    }
 
 }
